@@ -122,9 +122,18 @@ FamTX ==
                   !.mach = Mach2, !.hotCap = 10, !.coldCap = 10, !.alg = al] :
         d \in {7, 8}, al \in {"batch", "queue"}}
 
+(* ---- family G: two observations under the plan-following policies, every   *)
+(* static plan over both workflows (contention for a planned machine)         *)
+FamG ==
+    UNION {
+      LET ob == ("a" :> MkObs(0, da, 1, 1, 1, Chain2(2, 1, 1)) @@ "b" :> MkObs(eb, 1, 1, 1, 1, wb))
+      IN {[Base EXCEPT !.obs = ob, !.mach = Mach2, !.arrays = 2, !.maxIngest = 1, !.alg = al, !.plan = pl] :
+             al \in {"plan", "greedy"}, pl \in PlansFor(ob, DOMAIN Mach2)}
+      : da \in {1, 2}, eb \in {0, 1, 2, 3}, wb \in {Single(2), Chain2(1, 1, 0)} }
+
 CONSTANT FamilyName
 Fam == CASE FamilyName = "A" -> FamA [] FamilyName = "P" -> FamP [] FamilyName = "W" -> FamW
-               [] FamilyName = "V" -> FamV [] FamilyName = "B" -> FamB [] FamilyName = "BX" -> FamBX [] FamilyName = "A3" -> FamA3 [] FamilyName = "S" -> FamS [] FamilyName = "D" -> FamD [] FamilyName = "TX" -> FamTX
+               [] FamilyName = "V" -> FamV [] FamilyName = "B" -> FamB [] FamilyName = "BX" -> FamBX [] FamilyName = "A3" -> FamA3 [] FamilyName = "S" -> FamS [] FamilyName = "D" -> FamD [] FamilyName = "TX" -> FamTX [] FamilyName = "G" -> FamG
 WithEstT(c) == [c EXCEPT !.obs = [o \in DOMAIN c.obs |-> c.obs[o] @@ [estT |-> c.obs[o].est * c.K]]]
 MCConfigs == {WithEstT(c) : c \in {c \in Fam : FeasibleCfg(c)}}
 
